@@ -180,6 +180,31 @@ def random_project(
     return spec
 
 
+def relativise(spec, mp_rel, rnd, prob=0.6):
+    """Rewrites (in place) some absolute imports of the files below module_path `mp_rel` so that they are
+    written relative to module_path's parent directory (the second spelling C04 says must resolve):
+    'import proj.pkg.sub.m' -> 'import sub.m' for module_path proj/pkg/sub.  Returns the number of rewrites."""
+    if not mp_rel:
+        return 0
+    root = spec["root"]
+    parent = mod_of(root, os.path.dirname(mp_rel))
+    mpname = mod_of(root, mp_rel)
+    n = 0
+    for f, src in list(spec["files"].items()):
+        if not f.startswith(mp_rel + "/") or not f.endswith(".py"):
+            continue
+        out = []
+        for line in src.split("\n"):
+            for kw in ("import ", "from "):
+                if line.startswith(kw + mpname) and (line[len(kw) + len(mpname) :][:1] in (".", " ", "")) and rnd.random() < prob:
+                    line = kw + line[len(kw) + len(parent) + 1 :]
+                    n += 1
+                    break
+            out.append(line)
+        spec["files"][f] = "\n".join(out)
+    return n
+
+
 def all_dirs(spec):
     """Every directory at or below root (relative paths, '' = root) that exists in the spec."""
     ds = {""}
